@@ -25,6 +25,7 @@ RULE = ("poised interpolation sets reached by random update histories on a "
 RULE += ("  Also: the order of queries on one set varies (all indices first / one index first / shuffled); in real runs the index handed to update_interpolation must be the one get_index_to_remove chose FOR THE INSERTED POINT (tap pair), on problems rich in second-order corrections.")
 RULE += (" The point inserted after a geometry step is the point the step was rated for; more real runs with constraints and bounds.")
 RULE += (' The conditioning allowance is capped by the centred set; settled real runs are queried late.')
+RULE += (" Queries that fail (undefined candidate) precede valid queries on the same set.")
 ASSUMPTIONS = [
     "tolerance N*eps*cond2(scaled KKT)*(|alpha|*(|s|^4/2+sum|w_i y_i|)+tau^2) (the terms beta is a difference of): held <= 1e3x, "
     "violation > 1e6x, sets with cond2 > 1e8 skipped (no claim)",
@@ -173,6 +174,23 @@ def check_set(models, rng, viols, info, n_cand=3, crosscheck=True):
         shift = [Fr(float(a)) - Fr(float(b)) for a, b in zip(x_new,
                                                              itp.x_base)]
         ex = exact_sigmas(X, winv, shift, scale, cond)
+        if rng.random() < 0.3:
+            # a query that FAILS (undefined candidate) comes first: whatever
+            # it raises, the answers to the later queries on this set are
+            # those of the set
+            bad = np.array(x_new, copy=True)
+            bad[int(rng.integers(itp.n))] = float(rng.choice(
+                [np.nan, np.inf, -np.inf]))
+            with warnings.catch_warnings():
+                warnings.simplefilter("ignore")
+                try:
+                    if rng.random() < 0.7:
+                        models.determinants(bad, int(rng.integers(itp.npt)))
+                    else:
+                        models.determinants(bad)
+                except Exception:  # noqa: BLE001
+                    pass
+            info["failed_query_first"] = info.get("failed_query_first", 0) + 1
         with warnings.catch_warnings():
             warnings.simplefilter("ignore")
             try:
@@ -265,7 +283,8 @@ def run_driven(case):
               "ratios_skipped": info.get("skipped", 0),
               "sets_checked": info.get("sets", 0),
               "sets_skipped_singular": info.get("sets_skipped", 0),
-              "direct_ratio_crosschecks": info.get("cross", 0)}
+              "direct_ratio_crosschecks": info.get("cross", 0),
+              "failed_query_first": info.get("failed_query_first", 0)}
     for v in viols:
         v["witness"].update({"n": h.n, "npt": h.npt, "ops": h.ops})
     sample = None
